@@ -8,7 +8,12 @@ for b in $BINS; do
   [ "$b" = "vp_core" ] && continue
   cargo build --release -p "$b"
 done
-cargo build --profile nodebug -p vp_sample
+# second build configuration of the library (no debug assertions, no overflow checks): every check runs in both
+for b in $BINS; do
+  [ "$b" = "vp_core" ] && continue
+  [ "$b" = "vp_nostd" ] && continue
+  cargo build --profile nodebug -p "$b"
+done
 # the libFuzzer targets are only used by the thorough tier; build them in the background-friendly way:
 # a failure here makes the fuzz part of a thorough run inconclusive, it never breaks setup
 if [ -f ../fuzz/Cargo.toml ] && [ "${VERIF_SKIP_FUZZ_BUILD:-0}" != "1" ]; then
